@@ -240,9 +240,21 @@ def build(cfg, ctx):
     return b
 
 
+def without_logging(cfg):
+    """Same configuration run with do_logging=False, as most callers run it (no-op for averaging runs, whose point numbers only the
+    log shows). The random directions stay those of the logged twin (np_seed_for ignores the switch)."""
+    if cfg.get("nsamples"):
+        return cfg
+    cfg["args"]["do_logging"] = False
+    cfg["_nolog"] = True
+    return cfg
+
+
 def np_seed_for(cfg):
     import hashlib, json
-    c = {k: v for k, v in cfg.items() if k != "failpoint"}  # a failpoint run shares the random directions of its reference
+    c = {k: v for k, v in cfg.items() if k not in ("failpoint", "_nolog")}
+    if cfg.get("_nolog"):
+        c["args"] = {k: v for k, v in cfg["args"].items() if k != "do_logging"}  # a failpoint run shares the random directions of its reference
     return int(hashlib.sha1(json.dumps(engine.jsonable(c), sort_keys=True).encode()).hexdigest()[:8], 16)
 
 
@@ -255,6 +267,8 @@ def run_cfg(cfg, ctx=None, timeout=60, built=None, **over):
     # a run - and therefore a replay - is a function of its cfg alone
     np.random.seed(np_seed_for(cfg))
     engine.apply_failpoint(ctx, cfg.get("failpoint"))
+    if cfg.get("_nolog") and not cfg.get("nsamples") and kw.get("do_logging") is False:
+        ctx.extra["synth_pairs"] = True
     run = engine.run_solve(b.objfun, b.x0.copy(), ctx=ctx, timeout=timeout, faults=b.faults, persistent=b.persistent,
                            solve_kwargs=kw)
     run.built = b
